@@ -279,7 +279,8 @@ def build(clean=False, jobs=16, timeout=3000, keep_going=False):
     rc, out = sh(['coq_makefile', '-f', '_CoqProject', '-o', 'Makefile'], cwd=COQ, timeout=120)
     if rc != 0:
         return False, out
-    rc, out = sh(['timeout', str(timeout), 'make', '-j%d' % jobs] + (['-k'] if keep_going else []), cwd=COQ, timeout=timeout + 30)
+    rc, out = sh(['timeout', str(timeout), 'make', '-j%d' % jobs, 'COQC=timeout 900 coqc'] + (['-k'] if keep_going else []),
+                 cwd=COQ, timeout=timeout + 30)
     return rc == 0, out
 
 
